@@ -641,6 +641,10 @@ class MQTTProtocol(MQTTBaseProtocol):
         (with keepOwn, except the requests made through this protocol)
         '''
         #log.debug("{event}", event="Clean Persistent Session")
+        # The whole session is taken apart first and the errbacks fire last: 
+        # an errback may call publish(), whose refill must not pick up
+        # a message that is about to be purged.
+        purged = []
         for k in list(self.factory.windowPublish[self.addr]):
             request = self.factory.windowPublish[self.addr][k]
             if keepOwn and request.protocol is self:
@@ -649,12 +653,12 @@ class MQTTProtocol(MQTTBaseProtocol):
             if request.alarm is not None:   # (re)armed if it went out on this connection before CONNACK
                 request.alarm.cancel()
                 request.alarm = None
-            request.deferred.errback(reason)
+            purged.append(request)
 
         for k in list(self.factory.windowPubRelease[self.addr]):
             request = self.factory.windowPubRelease[self.addr][k]
             del self.factory.windowPubRelease[self.addr][k]
-            request.deferred.errback(reason)
+            purged.append(request)
 
         # messages still waiting for a free slot in the window belong to the session too
         queue = self.factory.queuePublishTx[self.addr]
@@ -663,7 +667,10 @@ class MQTTProtocol(MQTTBaseProtocol):
                 continue
             queue.remove(request)
             if request.msgId:   # QoS 0 deferreds have already fired
-                request.deferred.errback(reason)
+                purged.append(request)
+
+        for request in purged:
+            request.deferred.errback(reason)
 
 
     # -------------------------------------
